@@ -452,7 +452,13 @@ func crashSite(stderr string) string {
 			// recursion over a reference cycle is one cause, whatever containers lie in between), else the smallest name.
 			best, ref := "", ""
 			n := 0
-			for j := 0; j+1 < len(rest) && n < 60; j += 2 {
+			for j := 0; j < len(rest) && n < 120; j++ {
+				if strings.HasPrefix(rest[j], "\t") || strings.HasPrefix(rest[j], " ") || !strings.Contains(rest[j], "pluginsdk/") {
+					continue // a file:line row, a runtime frame, a separator: only frames of the module under test count
+				}
+				if strings.HasPrefix(rest[j], "goroutine ") {
+					break // the next goroutine's stack
+				}
 				n++
 				fn := lib.PanicSite(rest[j])
 				if !strings.HasSuffix(strings.TrimSpace(rest[j]), ")") || strings.Count(fn, "(") != strings.Count(fn, ")") || strings.HasSuffix(fn, "*") || strings.HasSuffix(fn, ".") {
